@@ -99,6 +99,8 @@ reg("C16", "./cmd/mcrew", "^TestC16", overlay=OV_MCREW, shards=(4, 16), level="f
     assumptions=["bolt's transaction is the trusted base: a crash is modelled at operation boundaries, faults as a closed store or a rejected key",
                  "interleavings of concurrent clients are sampled"])
 
+reg("C19", "./checks/tools", "^TestC19", shards=(16, 16), assumptions=["only soundness is judged: a spurious failure of the tool under load is not an alarm", "the emitted stream is produced by `cat` echoing each step's inputs; patterns yield at most one set of bindings"])
+
 
 def log(*a):
     print(*a, flush=True)
